@@ -194,6 +194,13 @@ func ruleWho(entries []whoEntry) func(c *Ctx) {
 			// the table names functions as they were; a renamed writer keeps its entry
 			resolved := map[string]string{}
 			for nm, why := range e.Writers {
+				fam := c.P.FnFamily(nm)
+				if len(fam) > 1 {
+					for _, f := range fam {
+						resolved[fnName(f)] = why
+					}
+					continue
+				}
 				resolved[c.P.FnNameOf(nm)] = why
 			}
 			e.Writers = resolved
